@@ -73,7 +73,11 @@ class PlaceholderSubstitutor(CopyMapper):
 
     def __init__(self, substitutions: Mapping[str, Array]) -> None:
         # Ignoring function cache, since we don't support functions anyway
-        super().__init__()
+        #
+        # A substituted-in binding may be structurally equal to the parameter
+        # placeholder it replaces (caller placeholder with the parameter's
+        # name, shape and dtype), which is not a mapper bug.
+        super().__init__(err_on_created_duplicate=False)
         self.substitutions = substitutions
 
     def map_placeholder(self, expr: Placeholder) -> Array:
